@@ -34,15 +34,19 @@ const (
 	MkInnerApprove                   // the approveShares made by that token (never placed in a tree on its own)
 	MkExecClaim                      // crosschain.executeClaim of a pending, executable claim (SendToFx of FX)
 	MkExecPanic                      // crosschain.executeClaim of a pending result claim whose bridge call is gone: the keeper deletes the claim, then PANICS
+	MkExecIBC                        // crosschain.executeClaim of a pending SendToFx claim that forwards over an OPEN IBC channel
+	MkExecIBCClosed                  // ... over a channel that has been CLOSED since: mint, conversion and escrow happen, then SendPacket refuses
+	MkFeeGone                        // crosschain.increaseBridgeFee with an ERC-20 on a transfer that is already in a batch (or never existed): the
+	                                 // closure takes the ERC-20 through the EVM, then the pool refuses
 )
 
 func (k MarkerKind) String() string {
-	return [...]string{"approve", "delegate", "xchain", "transferFail", "approveBad", "delegateFail", "bridgeCall", "cancel", "increaseFee", "rewards", "tokenCallback", "innerApprove", "executeClaim", "executeClaimPanic"}[k]
+	return [...]string{"approve", "delegate", "xchain", "transferFail", "approveBad", "delegateFail", "bridgeCall", "cancel", "increaseFee", "rewards", "tokenCallback", "innerApprove", "executeClaim", "executeClaimPanic", "executeClaimIBC", "executeClaimIBCClosed", "increaseFeeGone"}[k]
 }
 
 func (k MarkerKind) designedOK() bool {
 	switch k {
-	case MkTransferFail, MkApproveBad, MkDelegateFail, MkExecPanic:
+	case MkTransferFail, MkApproveBad, MkDelegateFail, MkExecPanic, MkExecIBCClosed, MkFeeGone:
 		return false
 	}
 	return true
@@ -50,7 +54,7 @@ func (k MarkerKind) designedOK() bool {
 
 // failsInsideAction: the native action starts, writes, and then returns an error
 func (k MarkerKind) failsInsideAction() bool {
-	return k == MkTransferFail || k == MkDelegateFail || k == MkExecPanic
+	return k == MkTransferFail || k == MkDelegateFail || k == MkExecPanic || k == MkExecIBCClosed || k == MkFeeGone
 }
 
 // panics: the keeper call does not return an error, it panics (after having written)
@@ -266,6 +270,9 @@ func coqPCallBody(m *Marker, executed bool) []string {
 		}
 		body = append(body, fmt.Sprintf("(Action %s %s)",
 			coqList([]string{"(NStep " + coqEff(m.ID, true, false) + ")", fmt.Sprintf("(Log %d)", logBase+m.ID)}), evs))
+	case m.Kind == MkFeeGone:
+		call := "(Frame (ncons (Frame nnil Return false) nnil) Return false)" // proxy -> logic (delegatecall); token storage is not modelled
+		body = append(body, fmt.Sprintf("(Action %s [])", coqList([]string{call, call, "(NStep " + coqEff(m.ID, false, true) + ")"})))
 	case m.Kind.panics():
 		body = append(body, fmt.Sprintf("(Action %s [])", coqList([]string{"(NStep " + coqEffPanic(m.ID) + ")"})))
 	case m.Kind.failsInsideAction():
@@ -330,6 +337,9 @@ func tracedCoq(f *TFrame, byInput map[string]*Marker, addrIdx map[common.Address
 		case "sstore":
 			ci, ok := addrIdx[o.Ctx]
 			if !ok {
+				if foreignStorage[o.Ctx] {
+					continue // storage of a token contract: not part of the modelled state (watched by the ERC-20 monitor)
+				}
 				okAll = false
 			}
 			body = append(body, fmt.Sprintf("(Write %d %d)", storKey(ci, o.Slot), o.Val))
@@ -343,6 +353,9 @@ func tracedCoq(f *TFrame, byInput map[string]*Marker, addrIdx map[common.Address
 	}
 	return coqList(body), okAll
 }
+
+// contracts outside the tree whose storage the trace may show (registered tokens and their logic contract)
+var foreignStorage = map[common.Address]bool{}
 
 func isPrecompile(a common.Address) bool {
 	return a == lib.StakingPrecompile || a == lib.CrosschainPrecompile
@@ -365,12 +378,24 @@ func tracedFrameCoq(f *TFrame, byInput map[string]*Marker, addrIdx map[common.Ad
 		// marker's action completed; on failure either nothing ran or the action failed inside
 		// "out of gas" is RequiredGas not being covered: Run never started
 		executed := f.Err == "" || (m.Kind.failsInsideAction() && f.Err != vm.ErrOutOfGas.Error())
-		if f.Err == "" && !m.Kind.designedOK() {
-			return "(Frame nnil Fail true)", false
-		}
+		// (a call designed to be refused that the EVM kept is reported by the monitor; for the model it is rendered as designed)
 		body := coqPCallBody(m, executed)
 		if f.Typ != vm.CALL && m.Kind != MkRewards { // no value moves to the precompile, nothing runs
 			body = nil
+		}
+		if m.Kind == MkFeeGone && f.Typ == vm.CALL && executed {
+			// the closure's ERC-20 calls through the EVM (traced), then the refusing native step
+			var inner []string
+			okAll := true
+			for _, o := range f.Ops {
+				if o.Kind == "frame" {
+					s, ok := tracedFrameCoq(o.Frame, byInput, addrIdx)
+					okAll = okAll && ok
+					inner = append(inner, strings.TrimSuffix(s, " true)")+" false)")
+				}
+			}
+			inner = append(inner, "(NStep "+coqEff(m.ID, false, true)+")")
+			return fmt.Sprintf("(Frame %s Return true)", coqList([]string{fmt.Sprintf("(Action %s [])", coqList(inner))})), okAll
 		}
 		if m.Kind == MkTokenCB && f.Typ == vm.CALL {
 			// what the closure really did through the EVM (traced), then its own native step if it completed
